@@ -8,7 +8,7 @@ from props import _ext
 ID = 'C05'
 LEAN_MODULES = ['Proofs.C05']
 REQUIRED = ['C05.mem_findPeaks', 'C05.mem_findTroughs', 'C05.findPeaks_sorted', 'C05.findPeaks_not_adjacent',
-            'C05.paddedExtrema_none_iff', 'C05.parabolic_within_half', 'C05.parabolic_strictMono',
+            'C05.paddedExtrema_none_iff', 'C05.parabolic_within_half', 'C05.parabolic_vertex_any_amplitude', 'C05.parabolic_strictMono',
             'C05.padOdd_strictMono', 'C05.padOdd_interior', 'C05.padOddOnce_mirror',
             'C05.paddedExtrema_structure', 'C05.paddedExtrema_covers', 'C05.paddedExtrema_terminates',
             'C05.envGrid_eq_range', 'C05.envGridPinned_offsets', 'C05.envGridPinned_fractional_witness',
